@@ -243,7 +243,7 @@ static int violation_from_dead_child(const struct job *j, int status)
 	if (WIFEXITED(status) && WEXITSTATUS(status) == 2) {
 		return 0; /* die(): a harness error, not the code under test */
 	}
-	if (cs == NULL || !cs->have_header || cs->nseed < 0 || cs->nseed > MAXK || cs->npath < 0 || cs->npath > MAXREPLAYOPS || cs->nseed + cs->npath == 0) {
+	if (cs == NULL || !cs->have_header || cs->nseed < 0 || cs->nseed > MAXK * 2 || cs->npath < 0 || cs->npath > MAXREPLAYOPS || cs->nseed + cs->npath == 0) {
 		return 0;
 	}
 	nops = cs->nseed + cs->npath;
